@@ -141,6 +141,14 @@ pub fn random_iso(r: &mut StdRng, reach: f64) -> Iso {
     let n = oracle::norm(&ax).max(1e-3);
     let a = if kind == 1 { 0.0 } else { r.gen_range(-PI..PI) };
     let q = nalgebra::UnitQuaternion::from_axis_angle(&nalgebra::Unit::new_normalize(nalgebra::Vector3::new(ax[0] / n, ax[1] / n, ax[2] / n)), a);
+    // one in eight is a mounting orientation: pitched by exactly a quarter turn (wall) or half a turn (ceiling), with
+    // any yaw and roll, or yaw and roll that are quarter turns themselves
+    let q = if kind == 2 {
+        let quarter = |r: &mut StdRng| r.gen_range(-2..=2) as f64 * std::f64::consts::FRAC_PI_2;
+        let pitch = [std::f64::consts::FRAC_PI_2, -std::f64::consts::FRAC_PI_2, PI][r.gen_range(0..3)];
+        let (roll, yaw) = if r.gen_bool(0.5) { (r.gen_range(-PI..PI), r.gen_range(-PI..PI)) } else { (quarter(r), quarter(r)) };
+        nalgebra::UnitQuaternion::from_euler_angles(roll, pitch, yaw)
+    } else { q };
     let iso = nalgebra::Isometry3::from_parts(nalgebra::Translation3::new(r.gen_range(-reach..reach), r.gen_range(-reach..reach), r.gen_range(-reach..reach)), q);
     Iso::from_na(&iso)
 }
@@ -253,8 +261,9 @@ fn truth_for(class: &str, p: &mut Parameters, r: &mut StdRng) -> [f64; 6] {
         let class = if attempts > 400 { if attempts == 401 && std::env::var("VERIF_LOUD").is_ok() { eprintln!("truth_for: no {} posture for {:?}", class, robots::params_json(p)); } "fallback" } else { class };
         match class {
             "j5-zero" => e[4] = 0.0,
-            // (half far below any resolution, half inside the 0.01 degree singularity band but well above the accuracy)
-            "j5-tiny" => e[4] = 10f64.powf(if r.gen_bool(0.5) { r.gen_range(-12.5..-8.5) } else { r.gen_range(-5.0..-3.8) }) * if r.gen_bool(0.5) { 1.0 } else { -1.0 },
+            // (a third far below any resolution, a third inside the 0.01 degree singularity band but well above the accuracy,
+            //  a third in between: around the accuracy itself, where a value may neither be rounded away nor blown up)
+            "j5-tiny" => e[4] = 10f64.powf(match r.gen_range(0..3) { 0 => r.gen_range(-12.5..-8.5), 1 => r.gen_range(-5.0..-3.8), _ => r.gen_range(-8.5..-5.0) }) * if r.gen_bool(0.5) { 1.0 } else { -1.0 },
             "j5-pi" => e[4] = PI,
             "stretched" | "barely-out" => e[2] = -psi3(p),
             "on-j1-axis" | "near-j1-axis" => {
@@ -296,6 +305,12 @@ fn limits_for(class: &str, q: &Joints, w: f64, r: &mut StdRng) -> Option<(Joints
             // windows of +-4e-6 rad (2.3 AU) around the originating J1 and J2: far narrower than any resolution of the
             // check, but limits all the same - answers on other branches are far outside
             "sliver" => if j < 2 { (q[j] - 4.0e-6, q[j] + 4.0e-6) } else { wide(q[j]) },
+            // everything but a gap of 3e-5 .. 3e-2 rad around the originating value of one joint (written either as a
+            // window of almost a full turn or as a wrap-around range); wide windows on the others
+            "gap" => if j == (q[1].abs() * 1000.0) as usize % 6 {
+                let w = 10f64.powf(r.gen_range(-4.5..-1.5));
+                if r.gen_bool(0.5) { (q[j] + w / 2.0, q[j] - w / 2.0 + 2.0 * PI) } else { (q[j] + w / 2.0, q[j] - w / 2.0) }
+            } else { wide(q[j]) },
             "some-equal" => match r.gen_range(0..3) { 0 => { let v = r.gen_range(-3.0..3.0); (v, v) } 1 => narrow(q[j]), _ => wide(q[j]) },
             _ => if j == (q[0].abs() * 1000.0) as usize % 6 { (q[j] + 0.5, q[j] + 0.8) } else { wide(q[j]) },
         };
@@ -329,10 +344,27 @@ fn centres(robot: &Robot) -> [f64; 6] {
     match &robot.limits { Some((f, t, w)) => Constraints::new(*f, *t, *w).centers, None => [0.0; 6] }
 }
 
+/// How far the answers are from being whole-turn shifts of the plain solutions they stand for (1e-12 rad): the largest
+/// remainder over the answers that are a plain solution to 1e-5 rad modulo whole turns, joints 1..nj.
+pub fn rep_dev(ans: &Solutions, plain: &Solutions, nj: usize) -> i64 {
+    let mut worst = 0i64;
+    for a in ans.iter() {
+        let dev = plain.iter().map(|p| (0..nj).map(|j| { let d = (a[j] - p[j]).rem_euclid(2.0 * PI); d.min(2.0 * PI - d) }).fold(0.0, f64::max)).fold(f64::INFINITY, f64::min);
+        if dev < 1e-5 { worst = worst.max((dev * 1e12).round() as i64); }
+    }
+    worst
+}
+
 /// The robot description of a scenario.
 pub fn make_params(sc: &Value, r: &mut StdRng) -> Parameters {
     let dof = sc["dof"].as_i64().unwrap() as i8;
     let mut p = robots::geometry(sc["geom"].as_str().unwrap(), r);
+    // one description in ten is written in another length unit (millimetres, centimetres, inches): the solver's
+    // accuracy is stated in the unit of the description
+    if r.gen_bool(0.1) {
+        let u = [1000.0, 100.0, 39.37007874015748][r.gen_range(0..3)];
+        p.a1 *= u; p.a2 *= u; p.b *= u; p.c1 *= u; p.c2 *= u; p.c3 *= u; p.c4 *= u;
+    }
     p = robots::convention(p, sc["signs"].as_u64().unwrap() as usize, sc["offsets"].as_str().unwrap(), r);
     // one robot in twelve is one of the eleven presets of the library, with the conventions it comes with
     if r.gen_bool(0.08) { let all = robots::named_robots(); p = all[r.gen_range(0..all.len())].1; }
@@ -402,6 +434,20 @@ pub fn instance_p(sc: &Value, p: Parameters, shared: Option<&Shared>, r: &mut St
         }
         _ => truth_for(pose_class, &mut p, r),
     };
+    // one generic configuration in twelve has some of J1, J4, J6 within 1e-7 .. 1.5e-4 rad of the +-180 degree seam of the
+    // normalised range (the previous vector, if any, then has those joints at zero: the home position)
+    let mut e = e;
+    let mut seam: Vec<usize> = Vec::new();
+    if shared.is_none() && pose_class == "generic" && r.gen_bool(0.085) {
+        for j in [0usize, 3, 5] {
+            if r.gen_bool(0.6) {
+                let target = (PI - 10f64.powf(r.gen_range(-7.0..-3.8))) * if r.gen_bool(0.5) { 1.0 } else { -1.0 };
+                let sj = if p.sign_corrections[j] == 0 { 1.0 } else { p.sign_corrections[j] as f64 };
+                e[j] = target * sj - p.offsets[j];
+                seam.push(j);
+            }
+        }
+    }
     let mut q = from_effective(&p, &e);
     // a 5-DOF robot's plain inverse answers with J6 = 0: every second pose is that of a configuration with J6 = 0, the
     // others are rolled about the tool axis by any J6 (tool point and axis are what counts)
@@ -492,6 +538,11 @@ pub fn instance_p(sc: &Value, p: Parameters, shared: Option<&Shared>, r: &mut St
     } else { prev };
     let mut j6 = if r.gen_bool(0.5) { q[5] } else { r.gen_range(-3.0..3.0) };
     let mut prev = prev;
+    let mut realised = realised;
+    if !seam.is_empty() && !pgram && prev_class != "centered" && prev.iter().all(|x| x.abs() < 100.0) {
+        for &j in &seam { prev[j] = 0.0; }
+        realised = false;
+    }
     // a non-finite J6 request must never come back: the answer is empty or finite
     let nonfinite_j6 = five && pose_class == "generic" && r.gen_bool(0.08);
     if nonfinite_j6 {
@@ -537,12 +588,17 @@ pub fn instance_p(sc: &Value, p: Parameters, shared: Option<&Shared>, r: &mut St
         ans.iter().map(|a| a[5].to_bits() == caller_j6.to_bits() || (a[5] == caller_j6) ||
             (centered && { let d = (a[5] - caller_j6).rem_euclid(2.0 * PI); d.min(2.0 * PI - d) < 1e-12 })).collect()
     } else { vec![] };
+    let mut rep_prad = 0i64;
     let plain: Vec<Vec<i64>> = if entry.contains("continuing") {
         // (5-DOF: the plain counterpart of a continuation call is the 5-DOF solve with the same J6 = previous J6;
         //  a robot declared 5-DOF answers plain `inverse` with J6 = 0, which the limits may treat differently)
         // (the sentinel stands for "J6 = 0" on the 5-DOF paths: the literal value, not whatever the constant holds)
         let pl = if five { call(robot.kin.as_ref(), "inverse_5dof", &pose, &prev, if centered { 0.0 } else { prev[5] }) } else { call(robot.kin.as_ref(), "inverse", &pose, &prev, j6) };
-        pl.unwrap_or_default().iter().map(au6).collect()
+        let pl = pl.unwrap_or_default();
+        // every answer that is (to 1e-5 rad, modulo whole turns) a plain solution: how far it is from being that
+        // solution shifted by whole turns exactly, in 1e-12 rad
+        rep_prad = rep_dev(&ans, &pl, if five { 5 } else { 6 });
+        pl.iter().map(au6).collect()
     } else { vec![] };
     // "the same query without limits": the sentinel means "relative to the constraint centres", which the
     // twin without limits does not know, so it is given the centres explicitly
@@ -573,6 +629,7 @@ pub fn instance_p(sc: &Value, p: Parameters, shared: Option<&Shared>, r: &mut St
     ev.insert("to".into(), json!(lt));
     ev.insert("answers".into(), json!(ans.iter().map(|a| answer_facts(&robot, &want, a)).collect::<Vec<_>>()));
     ev.insert("plain".into(), json!(plain));
+    ev.insert("rep_prad".into(), json!(rep_prad));
     ev.insert("free".into(), json!(free));
     ev.insert("resolve".into(), json!(resolve));
     // the wrapper stack's own forward kinematics and link poses at the truth configuration against the model
@@ -723,13 +780,14 @@ pub fn record_follow(output: &str) {
             let ans = call(robot.kin.as_ref(), "inverse_continuing", &want.to_na(), &prev, 0.0);
             let mut ev = json!({"ev": "follow", "k": k + 1, "entry": "inverse_continuing", "dof": 6, "geom": class, "stack": stack_class,
                 "pose_ok": true, "reach": "yes", "pgram": false, "j6_finite": true, "huge": false, "prev": au6(&prev), "prev_in_range": true, "j6_equal": [], "w16": 0, "centres": [0,0,0,0,0,0],
-                "lim": false, "from": [0,0,0,0,0,0], "to": [0,0,0,0,0,0], "plain": [], "free": [], "resolve": [], "twin_shift5": 0, "fwd_n": 0, "lim_reported": true, "reseated": false, "truth5_in_limits": true, "member": "single", "key": "",
+                "lim": false, "from": [0,0,0,0,0,0], "to": [0,0,0,0,0,0], "plain": [], "rep_prad": 0, "free": [], "resolve": [], "twin_shift5": 0, "fwd_n": 0, "lim_reported": true, "reseated": false, "truth5_in_limits": true, "member": "single", "key": "",
                 "truth": {"known": true, "q": au6(q), "nonsingular": true, "wrist_ok": true, "realised_by_prev": false}});
             match ans {
                 None => { ev["outcome"] = json!("panic"); ev["answers"] = json!([]); out.put(ev); break; }
                 Some(ans) => {
                     ev["outcome"] = json!("ok");
                     ev["answers"] = json!(ans.iter().map(|a| answer_facts(&robot, &want, a)).collect::<Vec<_>>());
+                    ev["rep_prad"] = json!(rep_dev(&ans, &call(robot.kin.as_ref(), "inverse", &want.to_na(), &prev, 0.0).unwrap_or_default(), 6));
                     let lost = ans.is_empty();
                     if !lost { prev = ans[0]; }
                     out.put(ev);
